@@ -668,7 +668,15 @@ def gsnap():
 def module_state():
     """fingerprint of every module-level mutable container (dict / list / set / bytearray) of the `vector` package: a call that
     writes into one of them (a cache, a memo table, a registry) leaves a trace in process-wide state"""
+    import importlib
+    import pkgutil
     import sys
+    for mi in pkgutil.walk_packages(vector.__path__, "vector."):        # lazily imported submodules are not "state": load them all first
+        if mi.name not in sys.modules and "numba" not in mi.name:
+            try:
+                importlib.import_module(mi.name)
+            except Exception:  # noqa: BLE001
+                pass
     out = {}
     for mname, mod in sorted(sys.modules.items()):
         if not (mname == "vector" or mname.startswith("vector.")) or mod is None:
@@ -745,12 +753,49 @@ def run_thunk(t):
         return ("raised", type(e).__name__)
 
 
+HISTORY_CODE = r"""
+import sys, json, hashlib
+sys.path.insert(0, %r); sys.path.insert(0, %r)
+from harness import arrays, common as C
+cat = arrays.catalogue(C.rng(%d, "c20"), %r)
+order = list(range(len(cat)))
+if %r == "backward":
+    order.reverse()
+out = {}
+for i in order:
+    out[i] = hashlib.sha256(repr(arrays.run_thunk(cat[i][1])).encode()).hexdigest()[:16]
+print("JSON" + json.dumps([[cat[i][0], out[i]] for i in range(len(cat))]))
+"""
+
+
+def history_probe(seed, tier):
+    import json
+    import subprocess
+    import sys
+    res = {}
+    for direction in ("forward", "backward"):
+        p = subprocess.run([sys.executable, "-c", HISTORY_CODE % (C.VERIF, C.VERIF + "/tools", seed, tier, direction)], capture_output=True, text=True, timeout=1200)
+        line = [l for l in p.stdout.splitlines() if l.startswith("JSON")]
+        if not line:
+            raise RuntimeError("history probe failed: " + p.stderr[-400:])
+        res[direction] = json.loads(line[0][4:])
+    out = []
+    for (name, a_), (_, b_) in zip(res["forward"], res["backward"]):
+        if a_ != b_:
+            out.append((f"history:{name.split(':')[0]}:{name.split(':')[-1]}", f"call {name} gives a different result when the catalogue runs backwards in a fresh interpreter "
+                        f"(result fingerprint {a_} vs {b_}): it depends on what ran before it"))
+    return out[:3]
+
+
 def c20_run(ctx):
     r = C.rng(ctx.seed, "c20")
     problems, samples = [], []
     cat = catalogue(r, ctx.tier)
     n = 0
     user_behavior = {"k": 1}
+    # module-level mutable state of the package (caches, memo tables, registries): fingerprint BEFORE anything runs, checked after the
+    # whole catalogue has run (below)
+    m0 = module_state()
     for setting in ({"all": "warn"}, {"all": "raise"}, {"divide": "ignore", "invalid": "raise", "over": "warn", "under": "ignore"}):
         old = numpy.seterr(**setting)
         warnings.simplefilter("error", RuntimeWarning)
@@ -767,21 +812,13 @@ def c20_run(ctx):
         finally:
             warnings.filters.pop(0) if warnings.filters and warnings.filters[0][2] is RuntimeWarning and warnings.filters[0][0] == "error" else None
             numpy.seterr(**old)
-    # module-level mutable state of the package (caches, memo tables, registries) must be as before after the whole catalogue
-    m0 = module_state()
-    for _, t in cat:
-        run_thunk(t)
     m1 = module_state()
-    for k in sorted(set(m0) | set(m1)):
-        if m0.get(k) != m1.get(k):
-            problems.append((f"module-state:{k}", f"module-level container {k} changed during the catalogue: {m0.get(k)} -> {m1.get(k)}"))
-    # history independence: every call gives the same result whatever ran before it (catalogue forwards vs. backwards)
-    fwd = [run_thunk(t) for _, t in cat]
-    bwd = list(reversed([run_thunk(t) for _, t in reversed(cat)]))
-    for (name, _), a_, b_ in zip(cat, fwd, bwd):
-        if a_ != b_:
-            problems.append((f"history:{name.split(':')[0]}:{name.split(':')[-1]}", f"call {name} gives {str(a_)[:80]} after the forward history and {str(b_)[:80]} after the backward one"))
-            break
+    for k in sorted(set(m0) & set(m1)):
+        if m0[k] != m1[k]:
+            problems.append((f"module-state:{k}", f"module-level container {k} changed while the catalogue ran: {m0[k]} -> {m1[k]}"))
+    # history independence: the catalogue run forwards and backwards in two FRESH interpreters gives the same result for every call
+    hist = history_probe(ctx.seed, ctx.tier)
+    problems += hist
     # a caller-owned behavior mapping handed to vector.Array must not be mutated
     b0 = dict(user_behavior)
     try:
